@@ -2,6 +2,8 @@ import Proofs.C06.Polymod
 import Proofs.C06.Net
 import Proofs.C06.Codec
 import Proofs.C06.Regroup
+import Proofs.C06.RegroupConv
+import Proofs.C06.Base58
 /-!
 # C06 — text encodings and addresses round-trip and accept exactly what the specs accept
 
@@ -102,15 +104,61 @@ theorem regroup_8_5_8_roundtrip (bytes : List Nat) (hb : ∀ v ∈ bytes, v < 25
       BitRegroup.convert five 5 8 false = .ok bytes :=
   BitRegroup.convert_8_5_8 bytes hb
 
-/- NOT proved (`regroup_5_8_canonical` would be its name): `convert five 5 8 false = ok b` implies
-   `convert b 8 5 true = ok five` (5→8 accepts ONLY the canonical grouping: less than 5 padding bits, all
-   zero). Checked on the real code by the oracle `regroup.canonical` and by the `regroup` stream against the
-   BIP reference `convertbits`. -/
+/-- T4 (canonicity, all lengths): 5→8 regrouping WITHOUT padding accepts a digit string exactly when it is
+    the padded 8→5 regrouping of the bytes it returns — i.e. exactly the strings whose padding is fewer
+    than 5 bits, all zero; there is no second spelling of a byte string. -/
+theorem regroup_5_8_accepts_iff_canonical (five bytes : List Nat) (hb : ∀ v ∈ bytes, v < 256) :
+    BitRegroup.convert five 5 8 false = .ok bytes ↔ BitRegroup.convert bytes 8 5 true = .ok five := by
+  constructor
+  · intro h; exact (BitRegroup.convert_5_8_canonical five bytes h).1
+  · intro h
+    obtain ⟨five', h1, _, h2⟩ := BitRegroup.convert_8_5_8 bytes hb
+    rw [h1] at h; cases h; exact h2
+
+/-- T4: what 5→8 accepts consists of 5-bit digits and yields bytes. -/
+theorem regroup_5_8_ranges (five bytes : List Nat) (h : BitRegroup.convert five 5 8 false = .ok bytes) :
+    (∀ v ∈ bytes, v < 256) ∧ (∀ d ∈ five, d < 32) :=
+  (BitRegroup.convert_5_8_canonical five bytes h).2
 
 example : BitRegroup.convert [0xff, 0x01] 8 5 true = .ok [31, 28, 0, 16] := by decide
 example : BitRegroup.convert [31, 28, 0, 16] 5 8 false = .ok [0xff, 0x01] := by decide
 example : BitRegroup.convert [31, 28, 0, 17] 5 8 false = .error .nonZeroPadding := by decide
 example : BitRegroup.convert [31, 28, 0, 16, 0, 0] 5 8 false = .error .excessPadding := by decide
+
+/-! ## Base58 / Base58Check (`base58.py`; alphabet, `_CHUNK`, `MAX_LENGTH` generated; hash a parameter) -/
+/-- T1 (chunked = positional): for EVERY chunk size ≥ 1 (in particular the generated `_CHUNK`), the digits
+    `_b58encode_from_int` writes are the plain positional base-58 digits of `i`, and `_b58decode_to_int` is
+    Horner's rule over all the digits — the ten-digit chunking changes nothing. -/
+theorem base58_chunked_is_positional (chunk : Nat) (hc : 1 ≤ chunk) :
+    (∀ i, 0 < i → Base58.digitsOfIntC chunk i = (Nat.digits 58 i).reverse) ∧
+    (∀ ds acc, Base58.decodeToInt chunk (ds.length + 1) ds acc = ds.foldl (fun v d => v * 58 + d) acc) :=
+  ⟨Base58.digitsOfIntC_eq chunk hc, fun ds acc => Base58.decodeToInt_eq chunk hc _ ds acc (by omega)⟩
+
+/-- T1 (raw round trip): `_b58decode(_b58encode(v)) = v` for every byte string (leading zero bytes
+    included). -/
+theorem base58_decode_encode (v : Bytes) : Base58.b58decode (Base58.b58encode v) = .ok v :=
+  Base58.b58decode_b58encode v
+
+/-- T1 (canonical): a string `_b58decode` accepts is exactly the encoding of what it returns: leading `1`s
+    ↔ leading zero bytes, minimal big-endian body, no alternative spelling. -/
+theorem base58_encode_decode (s : List Nat) (v : Bytes) (h : Base58.b58decode s = .ok v) :
+    Base58.b58encode v = s := Base58.b58encode_b58decode s v h
+
+/-- T1 (Base58Check round trip): for any hash `H` giving at least 4 bytes (hash256 in btclib), every payload
+    whose encoding fits the generated `MAX_LENGTH` decodes back to itself: the checksum is `H(v)[:4]`. -/
+theorem base58check_decode_encode (H : Bytes → Bytes) (hH : ∀ x, 4 ≤ (H x).length) (v : Bytes)
+    (hcap : (Base58.encode H v).length ≤ Gen.Base58.MAX_LENGTH) :
+    Base58.decode H (Base58.encode H v) none = .ok v := Base58.decode_encode H hH v hcap
+
+/-- T1 (Base58Check canonical): whatever `decode` accepts (with or without a required size) is the
+    Base58Check encoding of the payload it returns, is within the length cap, and has the required size. -/
+theorem base58check_encode_decode (H : Bytes → Bytes) (s : List Nat) (v : Bytes) (n : Option Nat)
+    (h : Base58.decode H s n = .ok v) :
+    Base58.encode H v = s ∧ s.length ≤ Gen.Base58.MAX_LENGTH ∧ (∀ k, n = some k → v.length = k) :=
+  Base58.encode_decode H s v n h
+
+example : Base58.b58encode [0, 0, 1, 2] = "115T".toList.map Char.toNat := by decide
+example : Base58.b58decode ("115T".toList.map Char.toNat) = .ok [0, 0, 1, 2] := by decide
 
 /-! ## Networks and witness programs (tables generated from `network.py` / `b32.py`) -/
 open Btc.Address Gen.Net in
